@@ -52,6 +52,19 @@ def diff_stmts(got, want):
     return out
 
 
+def read_error_owner(db):
+    """the emitted DDL as a whole cannot be read: whose statement is it?  C04 when the statement of a reference, rendered
+    on its own, is already unreadable (or cannot be rendered); C03 otherwise"""
+    for ref in db.refs:
+        if ref.inline:
+            continue
+        try:
+            sqlread.read_ddl(ref.sql)
+        except Exception:   # noqa
+            return 'C04'
+    return 'C03'
+
+
 def check_db(job):
     """job = (ops, db_slot, model_sql_hex or None[, variant]). returns dict with findings.
     variant 'deepcopy' / 'pickle': the oracle is applied to a copy of the database taken after the script ran, the
@@ -84,6 +97,7 @@ def check_db(job):
         got = sqlread.read_ddl(sql)
     except (sqlread.ReadError, ValueError) as e:
         res['read_error'] = repr(e)
+        res['read_error_owner'] = read_error_owner(db)
         return res
     res['nstmts'] = len(got)
     # table order actually used (join tables of <> refs come after all declared tables)
